@@ -3,6 +3,7 @@
    readers with bufio.Scanner line semantics, (c) keepstore handleIndex, (d) the phases of Balancer.Run. *)
 From Coq Require Import List Arith Bool NArith ZArith String.
 From AV Require Import model.C06_model proofs.C06_paging proofs.C06_index proofs.C06_sweep proofs.C06_small.
+From AV Require Import model.C06_unix proofs.C06_unix_proofs.
 Import ListNotations.
 
 (* ---- (a) paging ---------------------------------------------------------------------------------- *)
@@ -94,6 +95,47 @@ Theorem C06_index_handler_terminator :
      (exists e, parse_index body = inl e) /\ get_index body = None).
 Proof. split; [exact handle_index_complete|exact handle_index_truncated]. Qed.
 Print Assumptions C06_index_handler_terminator.
+
+(* ---- (c') a Directory volume behind handleIndex (model/C06_unix.v = unix_volume.go IndexTo) ------------ *)
+
+(* IndexTo returns nil exactly when every root entry it has to look into (lowercase hex name compatible with the
+   prefix) could be opened and listed to its end; then every block file of those directories is in the output,
+   and the output never contains anything else *)
+Theorem C06_unix_index_ok_iff_every_block_directory_was_read : forall pfx ents,
+  (snd (unix_index pfx ents) = true <->
+   (forall e, In e ents -> dir_selected pfx e = true -> exists files, e_kind e = UDir files None)) /\
+  (snd (unix_index pfx ents) = true ->
+   forall e files f, In e ents -> dir_selected pfx e = true -> e_kind e = UDir files None ->
+     In f files -> file_selected pfx f = true -> In (f_entry f) (fst (unix_index pfx ents))) /\
+  (forall x, In x (fst (unix_index pfx ents)) ->
+   exists e files fa f, In e ents /\ dir_selected pfx e = true /\ e_kind e = UDir files fa /\ In f files /\
+                        file_selected pfx f = true /\ f_entry f = x).
+Proof.
+  intros pfx ents. split; [apply unix_index_ok_iff|]. split; [apply unix_index_complete|apply unix_index_sound].
+Qed.
+Print Assumptions C06_unix_index_ok_iff_every_block_directory_was_read.
+
+(* a block directory that could not be opened, or whose listing failed after any number of entries - wherever it
+   comes in the root listing and whatever directories are read after it: the handler's response has no
+   end-of-index marker and both index readers reject it; otherwise the response is the complete index *)
+Theorem C06_unix_partial_index_is_rejected : forall pfx ents,
+  (forall e, In e ents -> dir_selected pfx e = true -> ~ (exists files, e_kind e = UDir files None) ->
+   forallb wf_entry (fst (unix_index pfx ents)) = true ->
+   (exists err, parse_index (unix_response pfx ents) = inl err) /\ get_index (unix_response pfx ents) = None) /\
+  (snd (unix_index pfx ents) = true -> unix_response pfx ents = render_index (fst (unix_index pfx ents))).
+Proof.
+  intros pfx ents. split; [intros e; apply unix_partial_index_rejected|apply unix_complete_index_response].
+Qed.
+Print Assumptions C06_unix_partial_index_is_rejected.
+
+(* regression witness: a variant that forgets the remembered error (e.g. overwrites it when a later Close succeeds)
+   serves an index that GetIndex accepts although the root entry "fff" could not be listed *)
+Theorem C06_unix_forgetful_variant_refuted :
+  let body := handle_index [{| v_text := render_lines (fst (unix_index_forgetful "" w_forget));
+                               v_ok := snd (unix_index_forgetful "" w_forget) |}] in
+  get_index body <> None /\ snd (unix_index "" w_forget) = false /\ get_index (unix_response "" w_forget) = None.
+Proof. exact forgetful_variant_refuted. Qed.
+Print Assumptions C06_unix_forgetful_variant_refuted.
 
 (* ---- (d) the sweep --------------------------------------------------------------------------------- *)
 
